@@ -146,6 +146,10 @@ def direct_case(case, counters, viol, nontrivial):
         b1 = min(1.0, b0 + step)
         if b1 == b0:
             b1 = min(1.0, b0 + 1e-3)
+        if g.random() < 0.2 and np.isfinite(ll.astype(float)).all():
+            # a move to a lower temperature is a temperature pair as well (re-targeting a tempered population)
+            b0, b1 = b1, b0
+            counters["downward_moves"] += 1
         n_req = [None, 1, max(1, n // 2), 3 * n][g.integers(4)]
         if case["xp"] == "jax" and n_req not in (None, 1):
             n_req = 3 * n
@@ -155,17 +159,17 @@ def direct_case(case, counters, viol, nontrivial):
         if g.random() < 0.3:
             # state carried on the object: look-ahead weight evaluations (as the adaptive schedule does), then a field is
             # re-evaluated and reassigned (the library's own idiom in mutate), then the population is resampled
-            src.log_weights(min(1.0, b0 + 0.5 * (b1 - b0)))
+            src.log_weights(min(1.0, max(0.0, b0 + 0.5 * (b1 - b0))))
             src.log_evidence_ratio(b1)
             ll2 = np.where(g.random(n) < 0.4, ll + g.normal(0, 3, n).astype(dt), ll).astype(dt)
-            if g.random() < 0.5 and n > 3:
+            if g.random() < 0.5 and n > 3 and b1 > b0:
                 ll2 = np.where(np.arange(n) % 2 == 1, -np.inf, ll2).astype(dt)
             src.log_likelihood = xp.asarray(ll2)
             where += " [field reassigned after look-ahead]"
             counters["reassigned_before_resample"] += 1
         out = src.resample(b1, n_samples=n_req, rng=proxy)
         counters["direct_resamples"] += 1
-        sig = f"{int(np.log10(n))}|{int(np.log10(spread)) if spread > 0 else 'flat'}|{int(np.log10(b1-b0))}|{'N' if n_req is None else ('1' if n_req == 1 else ('half' if n_req < n else '3N'))}|{case['xp']}|{dt}"
+        sig = f"{int(np.log10(n))}|{int(np.log10(spread)) if spread > 0 else 'flat'}|{int(np.log10(abs(b1-b0)))}{'down' if b1 < b0 else ''}|{'N' if n_req is None else ('1' if n_req == 1 else ('half' if n_req < n else '3N'))}|{case['xp']}|{dt}"
         judge_resample(pop_to_np(src), pop_to_np(out), b0, b1, n_req, proxy.draws, dt, where, viol, counters, sig, nontrivial)
         if str(to_np(out.x).dtype) != dt:
             viol.append({"mech": "C09/dtype-changed", "detail": f"{where}: output dtype {to_np(out.x).dtype}"})
@@ -184,6 +188,8 @@ def freq_case(case, counters, viol, nontrivial):
     x, ll, lp, lq = unique_pop(g, n, "float64", spread)
     b0 = float(g.uniform(0, 0.5))
     b1 = float(g.uniform(b0 + 0.2, 1.0))
+    if g.random() < 0.25 and np.isfinite(ll).all():
+        b0, b1 = b1, b0
     src = SMCSamples(x=xp.asarray(x), log_likelihood=xp.asarray(ll), log_prior=xp.asarray(lp), log_q=xp.asarray(lq), beta=b0, xp=xp, dtype="float64")
     pref, _ = ref_p(ll, lp, lq, b0, b1)
     counts = np.zeros(n)
